@@ -97,3 +97,10 @@ pub proof fn lemma_root_low_bit(w: Word)
 {
     assert(((w & 1) != 0) == (w % 2 == 1)) by (bit_vector);
 }
+
+/// 2^(BITS−1) = B/2
+pub proof fn lemma_root_pow2_half()
+    ensures pow2(@BITS@ - 1) == @HALFB@, pow2((WORD_BITS - 1) as int) == @HALFB@,
+{
+    assert(pow2(@BITS@ - 1) == @HALFB@) by (compute);
+}
